@@ -98,56 +98,202 @@ def _json_default(o):
     return str(o)
 
 
-def run_in_child(fn, arg, timeout=60):
-    """fork, run fn(arg) in the child, return its JSON result (dict)."""
-    rfd, wfd = os.pipe()
-    sys.stdout.flush()
-    sys.stderr.flush()
-    pid = os.fork()
-    if pid == 0:
-        os.close(rfd)
-        _child_main(fn, arg, wfd, timeout)
-    os.close(wfd)
+def _read_exact(fd, n):
     chunks = []
-    deadline = time.monotonic() + timeout
-    killed = False
-    try:
+    got = 0
+    while got < n:
+        b = os.read(fd, n - got)
+        if not b:
+            raise EOFError("pipe closed")
+        chunks.append(b)
+        got += len(b)
+    return b"".join(chunks)
+
+
+class Zygote:
+    """A pristine template process.  Every run is forked from one of these, never from a
+    process with a history: z3's behaviour depends on the addresses its allocator hands out,
+    and a child inherits the allocator state of whoever forks it.  (Measured: the same seed,
+    forked three times in a row from the long-lived main process, gave two different
+    models.)  A zygote does nothing between two forks except reading one byte and writing
+    two 8-byte integers, so its memory image stays the same; all zygotes are created
+    back-to-back right after the warm import.  One run at a time per zygote.
+
+    pipes: ctl (owner -> zygote: "go"), st (zygote -> owner: pid, then wait status),
+           job (owner -> child), res (child -> owner); job/res messages are length-prefixed.
+    """
+
+    def __init__(self):
+        import struct
+        self._struct = struct
+        self.job_r, self.job_w = os.pipe()
+        self.res_r, self.res_w = os.pipe()
+        self.ctl_r, self.ctl_w = os.pipe()
+        self.st_r, self.st_w = os.pipe()
+        sys.stdout.flush()
+        sys.stderr.flush()
+        pid = os.fork()
+        if pid == 0:
+            try:
+                self._loop()
+            finally:
+                os._exit(0)
+        self.pid = pid
+
+    # ---- inside the zygote -------------------------------------------------------------
+    def _loop(self):
+        import gc
+        gc.disable()
+        # keep only this side's ends: with the owner's ends closed here, the zygote sees EOF
+        # on its control pipe - and exits - as soon as its owner(s) are gone
+        for fd in (self.ctl_w, self.st_r, self.job_w, self.res_r):
+            os.close(fd)
+        pack = self._struct.pack
+        while True:
+            b = os.read(self.ctl_r, 1)
+            if not b or b == b"q":
+                os._exit(0)
+            pid = os.fork()
+            if pid == 0:
+                gc.enable()
+                self._child()
+            os.write(self.st_w, pack("q", pid))
+            _, status = os.waitpid(pid, 0)
+            os.write(self.st_w, pack("q", status))
+
+    def _child(self):
+        try:
+            n = self._struct.unpack("I", _read_exact(self.job_r, 4))[0]
+            job = json.loads(_read_exact(self.job_r, n))
+        except BaseException:  # noqa: BLE001
+            os._exit(3)
+        timeout = job.get("timeout", 90)
+        try:
+            if os.environ.get("VERIF_DEBUG"):
+                faulthandler.enable()
+                faulthandler.dump_traceback_later(max(5, timeout - 2), exit=False)
+            out = execute(job)
+            data = json.dumps(out, default=_json_default).encode()
+        except BaseException as exc:  # noqa: BLE001
+            data = json.dumps({"status": "harness_error", "error": f"{type(exc).__name__}: {exc}",
+                               "trace": traceback.format_exc()[-2000:]}).encode()
+        try:
+            os.write(self.res_w, self._struct.pack("I", len(data)))
+            view = memoryview(data)
+            while view:
+                k = os.write(self.res_w, view[: 1 << 16])
+                view = view[k:]
+        finally:
+            os._exit(0)
+
+    # ---- owner side ------------------------------------------------------------------------
+    def _drain(self, fd):
+        import fcntl
+        fl = fcntl.fcntl(fd, fcntl.F_GETFL)
+        fcntl.fcntl(fd, fcntl.F_SETFL, fl | os.O_NONBLOCK)
+        try:
+            while True:
+                try:
+                    if not os.read(fd, 1 << 16):
+                        break
+                except BlockingIOError:
+                    break
+        finally:
+            fcntl.fcntl(fd, fcntl.F_SETFL, fl)
+
+    def run(self, job, timeout=90):
+        st = self._struct
+        job = dict(job)
+        job["timeout"] = timeout
+        payload = json.dumps(job).encode()
+        os.write(self.ctl_w, b"g")
+        pid = st.unpack("q", _read_exact(self.st_r, 8))[0]
+        # the child is now blocked reading its job
+        msg = st.pack("I", len(payload)) + payload
+        view = memoryview(msg)
+        deadline = time.monotonic() + timeout
+        status = None
+        buf = b""
+        need = None
+        killed = False
+        result = None
         while True:
             left = deadline - time.monotonic()
-            if left <= 0:
+            if left <= 0 and not killed:
                 killed = True
+                try:
+                    os.kill(pid, signal.SIGKILL)
+                except ProcessLookupError:
+                    pass
+            wl = [self.job_w] if view and status is None else []
+            r, w, _ = select.select([self.res_r, self.st_r], wl, [], 1.0 if not killed else 5.0)
+            if w:
+                try:
+                    k = os.write(self.job_w, view[: 1 << 16])
+                    view = view[k:]
+                except BlockingIOError:
+                    pass
+            if self.res_r in r:
+                buf += os.read(self.res_r, 1 << 20)
+                if need is None and len(buf) >= 4:
+                    need = st.unpack("I", buf[:4])[0]
+                if need is not None and len(buf) >= 4 + need and result is None:
+                    result = buf[4:4 + need]
+            if self.st_r in r:
+                status = st.unpack("q", _read_exact(self.st_r, 8))[0]
+            if status is not None:
+                # the child is gone: take whatever complete result is already in the pipe
+                if result is None:
+                    rr, _, _ = select.select([self.res_r], [], [], 0)
+                    if rr:
+                        continue
                 break
-            r, _, _ = select.select([rfd], [], [], min(left, 1.0))
-            if r:
-                b = os.read(rfd, 1 << 20)
-                if not b:
-                    break
-                chunks.append(b)
-    finally:
-        os.close(rfd)
-    if killed:
+        if result is None or killed or view:
+            # leftovers of an aborted exchange must not reach the next run
+            self._drain(self.res_r)
+            self._drain(self.job_r)
+        if killed:
+            return {"status": "harness_error", "error": f"wall-clock kill after {timeout}s"}
+        if result is None:
+            if os.WIFSIGNALED(status) and os.WTERMSIG(status) in (signal.SIGSEGV, signal.SIGABRT, signal.SIGBUS):
+                return {"status": "crashed", "signal": os.WTERMSIG(status), "error": f"child killed by signal {os.WTERMSIG(status)} (engine crash)"}
+            if os.WIFEXITED(status) and 101 <= os.WEXITSTATUS(status) <= 114:
+                # libz3 called exit() with one of its own error codes (e.g. 114 "unexpected code was reached")
+                return {"status": "crashed", "signal": -os.WEXITSTATUS(status), "error": f"libz3 exited the process with code {os.WEXITSTATUS(status)} (engine crash)"}
+            return {"status": "harness_error", "error": f"child died without result (wait status {status})"}
         try:
-            os.kill(pid, signal.SIGKILL)
-        except ProcessLookupError:
+            return json.loads(result)
+        except ValueError as exc:
+            return {"status": "harness_error", "error": f"bad child output: {exc}"}
+
+    def close(self):
+        try:
+            os.write(self.ctl_w, b"q")
+        except OSError:
             pass
-    try:
-        _, status = os.waitpid(pid, 0)
-    except ChildProcessError:
-        status = 0
-    if killed:
-        return {"status": "harness_error", "error": f"wall-clock kill after {timeout}s"}
-    data = b"".join(chunks)
-    if not data:
-        if os.WIFSIGNALED(status) and os.WTERMSIG(status) in (signal.SIGSEGV, signal.SIGABRT, signal.SIGBUS):
-            return {"status": "crashed", "signal": os.WTERMSIG(status), "error": f"child killed by signal {os.WTERMSIG(status)} (engine crash)"}
-        if os.WIFEXITED(status) and 101 <= os.WEXITSTATUS(status) <= 114:
-            # libz3 called exit() with one of its own error codes (e.g. 114 "unexpected code was reached")
-            return {"status": "crashed", "signal": -os.WEXITSTATUS(status), "error": f"libz3 exited the process with code {os.WEXITSTATUS(status)} (engine crash)"}
-        return {"status": "harness_error", "error": f"child died without result (wait status {status})"}
-    try:
-        return json.loads(data)
-    except ValueError as exc:
-        return {"status": "harness_error", "error": f"bad child output: {exc}"}
+        try:
+            os.waitpid(self.pid, 0)
+        except ChildProcessError:
+            pass
+
+
+ZYGOTES = []       # created by make_zygotes() right after the warm import
+MAIN_ZYGOTE = None
+
+
+def make_zygotes(n):
+    """n zygotes for pool workers + one for runs issued by the main process itself"""
+    global MAIN_ZYGOTE
+    for _ in range(n + 1):
+        ZYGOTES.append(Zygote())
+    MAIN_ZYGOTE = ZYGOTES.pop()
+
+
+def run_in_child(fn, arg, timeout=90):
+    """run one job in a child forked from the main process's zygote (fn is always execute)"""
+    if MAIN_ZYGOTE is None:
+        raise HarnessError("zygotes not created (call runner.make_zygotes after warm_import)")
+    return MAIN_ZYGOTE.run(arg, timeout)
 
 
 # --------------------------------------------------------------------------------------
@@ -253,14 +399,19 @@ def run_job(job, timeout=60):
 # worker pool
 # --------------------------------------------------------------------------------------
 class Pool:
-    """N workers forked from the (single-threaded, warm) main process."""
+    """N supervisors forked from the main process; supervisor w drives zygote w (created
+    earlier by make_zygotes), applies the wall-clock guard and forwards results."""
 
     def __init__(self, nworkers):
+        if len(ZYGOTES) < nworkers:
+            raise HarnessError(f"only {len(ZYGOTES)} zygotes for {nworkers} workers")
         self.n = nworkers
         self.workers = []  # (pid, job_w, res_r)
         for w in range(nworkers):
             job_r, job_w = os.pipe()
             res_r, res_w = os.pipe()
+            sys.stdout.flush()
+            sys.stderr.flush()
             pid = os.fork()
             if pid == 0:
                 os.close(job_w)
@@ -271,14 +422,16 @@ class Pool:
                         os.close(rr)
                     except OSError:
                         pass
-                self._worker_loop(job_r, res_w)
+                self._worker_loop(job_r, res_w, ZYGOTES[w])
                 os._exit(0)
             os.close(job_r)
             os.close(res_w)
             self.workers.append((pid, job_w, res_r))
 
     @staticmethod
-    def _worker_loop(job_r, res_w):
+    def _worker_loop(job_r, res_w, zygote):
+        global MAIN_ZYGOTE
+        MAIN_ZYGOTE = zygote   # run_job() inside this supervisor goes through its own zygote
         jf = os.fdopen(job_r, "r")
         rf = os.fdopen(res_w, "w")
         for line in jf:
@@ -288,7 +441,7 @@ class Pool:
             job = json.loads(line)
             if job.get("cmd") == "stop":
                 break
-            res = run_job(job, timeout=job.get("timeout", 60))
+            res = run_job(job, timeout=job.get("timeout", 90))
             res["job_id"] = job.get("job_id")
             if "run_seed" not in res:
                 res["run_seed"] = job.get("run_seed")
